@@ -189,6 +189,12 @@ func buildC13(c c13Case) (*astisub.Subtitles, string) {
 		}
 		if cu.Style != "" {
 			it.Style = ref(cu.Style)
+			if it.InlineStyle != nil && !c.CopyRefs {
+				// the cue repeats, inline, what its style already says
+				white := "white"
+				it.InlineStyle.TTMLColor = &white
+				it.InlineStyle.SSAFontName = "f" + cu.Style
+			}
 		}
 		if cu.Region != "" {
 			it.Region = s.Regions[cu.Region]
@@ -450,6 +456,19 @@ func checkC13(c c13Case) string {
 						return fmt.Sprintf("cue %d: a run still carries a style or inline attributes", i)
 					}
 				}
+			}
+		}
+		// the caller then puts a definition back into the list it owns; another list has its styling removed: that one
+		// is left without definitions all the same
+		if s.Styles != nil && s.Regions != nil {
+			s.Styles["later"] = &astisub.Style{ID: "later"}
+			s.Regions["later"] = &astisub.Region{ID: "later"}
+		}
+		other, _ := buildC13(c13Case{Styles: []c13Style{{ID: "s0"}}, Cues: []c13Cue{{Start: 0, End: 1000, Style: "s0", Runs: []c13Run{{Text: "x"}}}}})
+		if other != nil {
+			other.RemoveStyling()
+			if len(other.Styles) != 0 || len(other.Regions) != 0 {
+				return fmt.Sprintf("RemoveStyling on another list, after the caller added definitions to the first one, leaves %d styles and %d regions", len(other.Styles), len(other.Regions))
 			}
 		}
 		return ""
